@@ -593,6 +593,54 @@ func EnumPairs(thorough bool, f func(Case)) {
 
 var tripleStmts = []string{"$2 = x", "$i++", "NF = 2", "$0 = \"p q r\"", "a[k]++", "delete a[k]", "i++", "OFS = \"-\"", "$1 = $1", "sub(/b/, \"X\")", "split($0, a)", "getline", "getline $2 < \"pre\"", "x = $(-1)", "u = $(NF+1)", "FS = \",\""}
 
+// ---- self-referencing assignments ------------------------------------------
+//
+// `v = v op e` where evaluating e changes v: the left operand is read before e
+// is evaluated (operands left to right). Also the mirrored `v = e op v`, the
+// augmented `v op= e`, and the same through every lvalue kind. Each statement
+// is grouped with its parenthesised and its expression-position spelling.
+
+func EnumSelfAssign(thorough bool, f func(Case)) {
+	type lv struct{ name, text, scope string }
+	lvs := []lv{{"global", "x", "RULE"}, {"unset", "u", "RULE"}, {"NF", "NF", "RULE"}, {"field", "$2", "RULE"}, {"elem", "a[k]", "RULE"}, {"NR", "NR", "RULE"}, {"param", "p", "FUNC"}, {"localelem", "la[1]", "FUNC"}}
+	ops := []string{"+", "-", "*", "/", "%", "^", " "}
+	if !thorough {
+		ops = []string{"+", "*", "^", "-", " "}
+	}
+	for _, l := range lvs {
+		L := l.text
+		effects := []string{L + "++", "++" + L, L + "--", "(" + L + " = 3)", "(" + L + " += 2)", "sub(/[0-9a-z]/, \"7\", " + L + ")", "(getline " + L + " < \"pre\")", "bump()"}
+		for _, op := range ops {
+			for ei, e := range effects {
+				if e == "bump()" && L != "x" {
+					continue
+				}
+				forms := []struct{ tag, stmt string }{
+					{"lr", L + " = " + L + " " + op + " " + e},
+					{"lr-paren", L + " = (" + L + " " + op + " " + e + ")"},
+					{"lr-expr", "r = (" + L + " = " + L + " " + op + " " + e + ")"},
+					{"rl", L + " = " + e + " " + op + " " + L},
+					{"rl-paren", L + " = (" + e + " " + op + " " + L + ")"},
+				}
+				if op != " " {
+					forms = append(forms, struct{ tag, stmt string }{"aug", L + " " + op + "= " + e}, struct{ tag, stmt string }{"aug-expr", "r = (" + L + " " + op + "= " + e + ")"})
+				}
+				for _, fm := range forms {
+					g := fmt.Sprintf("self|%s|%s|%d|%s", l.name, op, ei, strings.TrimSuffix(fm.tag, "-paren"))
+					body := fm.stmt + "; print " + L + "; print r; print NF; print"
+					var src string
+					if l.scope == "FUNC" {
+						src = "function bump() { x = 10; return 1 }\nfunction fn(p, la) { la[1] = 5; p = 4; " + body + " }\n{ " + initStmts + "; fn(6) }\n"
+					} else {
+						src = "function bump() { x = 10; return 1 }\n{ " + initStmts + "; " + body + " }\n"
+					}
+					f(Case{Family: "selfassign", Name: l.name + "/" + op + "/" + e + "/" + fm.tag, Src: src, Group: g})
+				}
+			}
+		}
+	}
+}
+
 // ---- long runs -------------------------------------------------------------
 //
 // State that leaks a little per record or per call (call depth, frames, local
@@ -629,6 +677,9 @@ var longPrograms = []string{
 	`{ s = s sprintf("%" (NR % 140 + 1) "d", 1) } END { print length(s) }`,
 	`{ n += split($0, parts, "[" (NR % 130) "x ]") } END { print n }`,
 	`{ t = $0; n += gsub("[f" (NR % 120) "]", "-", t) } END { print n }`,
+	// after the caches are full: what is compiled / parsed next must behave like the first entries
+	`{ r += ("x" NR) ~ ("^x" NR "$") } END { print r; match("xabcdabcd", "ab|abcd"); print RSTART, RLENGTH; s = "xabcdabcd"; print sub("ab|abcd", "<&>", s), s; n = split("1ab2abcd3", parts, "ab|abcd"); print n, parts[2]; print gsub(/a|ab/, "-", s), s; print "zab" ~ "^(z|za)b$" }`,
+	`{ s = s sprintf("%" (NR % 140 + 1) "d", 1) } END { print length(s); printf "%5.2f|%-4d|%c|%s|%5s|%.2s|%i\n", 3.14159, 42, 65, "str", "ab", "abcdef", 7.9; printf "%d %d\n", 1 }`,
 	`{ a[NR] = $0; delete a[NR - 1] } END { print length(a) }`,
 	`{ a[$2, $3]++ } END { for (k in a) n += a[k]; print n, length(a) }`,
 	`{ $(NF + 1) = NR; s += NF } END { print s }`,
@@ -665,6 +716,7 @@ func EnumC01(thorough bool, f func(Case)) {
 	EnumLvalue(thorough, f)
 	EnumCond(thorough, f)
 	EnumBoolValue(thorough, f)
+	EnumSelfAssign(thorough, f)
 	EnumLong(thorough, f)
 	EnumConcat(thorough, f)
 	EnumPairs(thorough, f)
